@@ -109,6 +109,31 @@ _MEMBER = dict(sim=dict(Node="{1,2,3}", MaxTerm=5, MaxLog=7, MaxMsgs=8, Cap=100,
                hcfg=H_EXPAND, rnd_cfgs=[H_EXPAND, H_PLUS1], profile="member")
 for _p, _mech in (("C03", ["StartRound"]), ("C26", ["Join"]), ("C27", ["Join"]), ("C28", ["Restart"])):
     PROPS[_p] = dict(mc={"quick": ["member-q"], "thorough": ["member-t", "member4-t"]}, mech=_mech, min_mech=1, **_MEMBER)
+def mc_lease(wd, tier, workers):
+    """Lease.tla: repaired design must satisfy C12_LeaseExclusive; each as-implemented deviation is run too
+    and its (expected) counterexample recorded."""
+    out = []
+    consts = dict(F="{2,3}", LeaseDur=2, ETmin=3, MaxClock=6 if tier == "quick" else 7, MaxInFlight=2)
+    for dev in ([], ["LeaseAnchoredAtLastSendTs"], ["VotersIgnoreRecentLeader"]):
+        cfg = os.path.join(wd, "lease-%d.cfg" % len(out))
+        c = dict(consts)
+        c["Dev"] = dv.tla_set(dev)
+        dv.write_cfg(cfg, constants=c, invariants=["C12_LeaseExclusive"])
+        st = dv.tlc_mc("Lease", cfg, wd, workers=workers, timeout=1500)
+        if not dev and not st["ok"]:
+            raise dv.ToolError("Lease.tla (Dev={}) violates C12_LeaseExclusive:\n" + st["output_tail"])
+        out.append({"config": "Lease.tla Dev=%s" % (dev or "{}"), "constants": consts, "distinct_states": st["distinct"],
+                    "states_generated": st["generated"], "depth": st["depth"], "secs": st["secs"],
+                    "invariant_holds": st["ok"]})
+        if dev:
+            break_ = True
+    return out
+
+
+_READS = dict(hcfg={"n": 3, "cap": 100}, rnd_cfgs=[{"n": 3, "cap": 100}, {"n": 5, "cap": 100}], profile="reads")
+PROPS["C11"] = dict(mc={"quick": ["repl-q"], "thorough": ["repl-t"]}, mc_custom=mc_lease, mech=["Client"], min_mech=2, **_READS)
+PROPS["C12"] = dict(mc={"quick": [], "thorough": []}, mc_custom=mc_lease, mech=["Client"], min_mech=2, **_READS)
+_WHAT.update({"C11": "linearizable reads are linearizable", "C12": "lease reads only under a valid, exclusive leader lease"})
 _WHAT.update({"C03": "a node skips vote collection only when it is the only voter",
               "C26": "membership changes never allow two disjoint quorums",
               "C27": "learners never vote, never start elections, never count toward quorums until promoted",
@@ -225,6 +250,13 @@ def check(prop, tier):
                          "depth": st["depth"], "secs": st["secs"]})
         states += st["distinct"]
         transitions += st["generated"]
+
+    if spec.get("mc_custom"):
+        for st in spec["mc_custom"](wd, tier, T["workers"]):
+            mc_stats.append(st)
+            if st.get("invariant_holds", True):
+                states += st["distinct_states"]
+                transitions += st["states_generated"]
 
     # 2. behaviours of the as-implemented model -> schedules
     simc = spec.get("sim") or dict(Node="{1,2,3}", MaxTerm=5, MaxLog=6, MaxMsgs=8, Cap=2,
